@@ -71,6 +71,8 @@ theorem lex2_typ_facts (t : Lex2) (h : t.WF) :
   | cdc => simp only [Lex2.typ]; exact ⟨by decide, fun e => absurd e (by decide), fun e => absurd e (by decide)⟩
   | strI q its => simp only [Lex2.typ]; exact ⟨by decide, fun e => absurd e (by decide), fun e => absurd e (by decide)⟩
   | identD n c cs => simp only [Lex2.typ]; exact ⟨by decide, fun e => absurd e (by decide), fun e => absurd e (by decide)⟩
+  | uriQ u r l w1 q its w2 =>
+    simp only [Lex2.typ]; exact ⟨by decide, fun e => absurd e (by decide), fun e => absurd e (by decide)⟩
 
 /-- code points of a plain function name with its parenthesis -/
 def fnChars : List (Nat × Nat) := [(40, 40), (45, 45), (48, 57), (65, 90), (95, 95), (97, 122)]
@@ -132,7 +134,7 @@ theorem loop_lexemes2_full (doC : Bool) (ts : List Lex2) (h : ∀ t ∈ ts, t.WF
       | uri e l h1 h2 h3 h4 h5 h6 h7 =>
         obtain ⟨c, cs, rfl⟩ := f2 (by rw [← hty]; exact h6)
         have hwf := h _ ht
-        rw [hfx (by rw [h6]; decide), hval] at h7
+        rw [hfx h6, hval] at h7
         exact fn_not_url c cs hwf.1 hwf.2.1 h7
       | comment h1 h2 h3 h4 h5 h6 =>
         obtain ⟨c, rfl⟩ := f3 (by rw [← hty]; exact h5)
